@@ -96,7 +96,8 @@ Definition chk_reqhead (c o : value) : bool :=
 
 (* ---- family sock with meta ----------------------------------------------------------
    meta ::= (1 method raw path ((k v)..) ((name value)..) cl)   the client's request (in the class)
-          | (0 head)                                            a head: accept/reject consistency  *)
+          | (0 head)                                            a head: accept/reject consistency
+          | (9 raw)                                             a request for a target outside the class: what QUrl says (tabulated) *)
 Definition snaps (o : value) : list value :=
   match o with
   | VL l => filter (fun e => match e with VL (VI 8 :: _) => true | _ => false end) l
@@ -117,6 +118,20 @@ Definition chk_sock_C01 (c o : value) : bool :=
           | _, _ => false
           end
       | _, _, _ => false
+      end
+  | VL [_; _; orc; VL [VI 9; VB raw]] =>
+      (* a target whose decoding is QUrl's business: the application is told the path and the query items QUrl / QUrlQuery give *)
+      match dec_env orc with
+      | Some e =>
+          match lookup_url raw (url_table e), snaps o with
+          | Some (true, path, items), [VL [VI 8; VI _; VB raw'; VB path'; VL q'; VL _; VI _]] =>
+              beq raw raw' && beq path path' &&
+              match get_pairs q' with Some q1 => perm_b items q1 | None => false end
+          | Some (true, _, _), _ => false
+          | Some (false, _, _), sn => match sn with [] => true | _ => false end
+          | None, _ => true
+          end
+      | None => true
       end
   | VL [_; _; orc; VL [VI 0; VB head]] =>
       (* accepted  <->  grammar ok and QUrl says the target is valid *)
